@@ -482,6 +482,33 @@ def gen_c12(rnd, n, thorough=False):
                     past = rnd.randint(1, 40)
                     lines.append("clihttpview file=s/i1/%s retention=%d from=%s until=%s now=@-%d" % (nm, arch, '@-%d' % (past + rnd.randint(0, 30)), '@-%d' % past, past))
         cases.append({'id': 'c12-%d' % c, 'lines': lines, 'tags': {'layout': lname}})
+    # the query string itself (net/url as client and handler use it): escape, unescape, parse
+    import urllib.parse
+    special = b' +&=;%#/?:@~-_.\x00\xff\xe3\x81\x82\n"<>'
+    def rbytes(k):
+        return bytes(rnd.pick(list(special)) if rnd.chance(0.5) else rnd.randrange(256) for _ in range(k))
+    for c in range(max(4, n // 4)):
+        lines = []
+        for _ in range(6):
+            lines.append('qesc %s' % (rbytes(rnd.randint(0, 16)).hex() or '-'))
+        for _ in range(6):
+            u = ''.join(rnd.pick('%%%+ab0Z9fFgG~&=; /') for _ in range(rnd.randint(0, 8))).encode()
+            lines.append('qunesc %s' % (u.hex() or '-'))
+        for _ in range(5):
+            kvs = [(rnd.pick(['file', 'retention', 'from', 'until', 'now', 'item', 'pattern', 'x_1', 'a.b', 'k~']), rbytes(rnd.randint(0, 10)))
+                   for _ in range(rnd.randint(1, 5))]
+            q = '&'.join('%s=%s' % (k, urllib.parse.quote_plus(v, safe='~' if rnd.chance(0.5) else '')) for k, v in kvs).encode()
+            r = rnd.random()
+            if r < 0.5:
+                pass
+            else:
+                q = bytearray(q)
+                for _m in range(rnd.randint(1, 3)):
+                    pos = rnd.randrange(len(q) + 1)
+                    q[pos:pos] = rnd.pick([b';', b'%zz', b'%4', b'&&', b'=', b'&', b'+', b'%2B', b'%', b'#'])
+                q = bytes(q)
+            lines.append('qparse %s' % (q.hex() or '-'))
+        cases.append({'id': 'c12-q%d' % c, 'lines': lines, 'tags': {'layout': 'query'}})
     return cases
 
 
